@@ -15,6 +15,7 @@ import (
 	"time"
 
 	"github.com/go-jose/go-jose/v4/jwt"
+	"sync"
 )
 
 type vGateWorld struct {
@@ -333,6 +334,25 @@ func (g *vGateWorld) probe(c map[string]interface{}, idx int) map[string]interfa
 	if g.txState() != txBefore {
 		effects["tx2fa"] = true
 	}
+	if op == "bootstrapgen" && vStr(cred, "kind") == "basic" && vStr(cred, "var") == "ok" && actor != "root" {
+		// the other way somebody who knows a password could come by a bootstrap OTP: the login form, in a deployment that
+		// can send mail but has NOT switched self-service on - a new user (no token, never had one) signs in
+		w.pw.mu.Lock()
+		w.pw.pw["newbie"] = "pw-newbie"
+		w.pw.mu.Unlock()
+		mailer := &vCountingMailer{}
+		w.st.emailManager, w.st.Config.Email.Domain = mailer, "example.com"
+		w.st.Config.Base.AllowSelfServiceBootstrapOTP = false
+		w.st.DeleteUserProfile("newbie")
+		w.Do(vReq{Method: "POST", Path: "/api/v0/login", Form: url.Values{"username": {"newbie"}, "password": {"pw-newbie"}}})
+		time.Sleep(20 * time.Millisecond)
+		if p, ok, _, err := w.st.LoadUserProfile("newbie"); (err == nil && ok && len(p.BootstrapOTP.Sha512Hash) > 0) || mailer.count() > 0 {
+			effects["write"] = true
+			dirNote = "bootstrap OTP issued to a new user at the login form"
+		}
+		w.st.DeleteUserProfile("newbie")
+		w.st.emailManager = nil
+	}
 	signedSubject := "none"
 	if info := w.parseIssued(r.Body); info.Kind != "none" && info.SignedByUs {
 		effects["signed"] = true
@@ -461,4 +481,22 @@ func TestVerifRoutes(t *testing.T) {
 	for _, p := range verifRoutePaths {
 		fmt.Println("ROUTE " + p)
 	}
+}
+
+type vCountingMailer struct {
+	mu sync.Mutex
+	n  int
+}
+
+func (m *vCountingMailer) SendMail(from string, to []string, msg []byte) error {
+	m.mu.Lock()
+	m.n++
+	m.mu.Unlock()
+	return nil
+}
+
+func (m *vCountingMailer) count() int {
+	m.mu.Lock()
+	defer m.mu.Unlock()
+	return m.n
 }
